@@ -86,6 +86,7 @@ func (e *Engine) buildVCx(key string, con *Contract, excl map[string]bool) (res 
 	st := State{}
 	a0 := x.comp(st, "alloc")
 	c.Assume(BoolLit(true), T(SBool, app(">=", a0.S, "1")))
+	c.Assume(BoolLit(true), T(SBool, app(">=", x.comp(st, "G_calls_len").S, "0")))
 	if con == nil || con.Mode != "held" {
 		// sequential entry: the calling goroutine holds no stack lock
 		h0 := x.comp(st, "G_held")
@@ -205,7 +206,7 @@ func (x *Exec) frameObligations(key string, con *Contract, env *SpecEnv, entry, 
 			body = Eq(fin, ini)
 		} else {
 			conds := []string{"(<= 0 q)", fmt.Sprintf("(< q %s)", a0.S)}
-			if strings.HasPrefix(name, "Map_") || strings.HasPrefix(name, "G_") {
+			if strings.HasPrefix(name, "G_") {
 				conds = conds[:0]
 			}
 			for _, m := range allowed[name] {
